@@ -67,6 +67,30 @@ func simple(e hs.Expr) bool {
 	return false
 }
 
+// calm: none of the statements can be never-typed (a block with a diverging statement is typed
+// `never` as a whole, which unifies with anything: a wrong tail behind it is not a type error).
+func calm(stmts []hs.Stmt) bool {
+	for _, st := range stmts {
+		switch st := st.(type) {
+		case hs.Let:
+			if !simple(st.X) {
+				return false
+			}
+		case hs.ExprStmt:
+			if a, ok := st.X.(hs.Assign); ok {
+				if !simple(a.L) || !simple(a.R) {
+					return false
+				}
+			} else if !simple(st.X) {
+				return false
+			}
+		default:
+			return false
+		}
+	}
+	return true
+}
+
 type siteWalker struct {
 	sites []Site
 	ctx   []string
@@ -207,7 +231,7 @@ func (w *siteWalker) expr(get func() hs.Expr, set func(hs.Expr)) {
 	case *hs.If:
 		w.add("condition-if", func() hs.Expr { return e.Cond }, func(n hs.Expr) { e.Cond = n }, hs.IntLit{V: 1})
 		if e.T.IsScalar() && e.T.K != hs.KNull && e.T.K != hs.KRange && e.Else != nil {
-			if eb, ok := e.Else.(*hs.Block); ok && eb.Tail != nil && len(e.Then.Stmts) == 0 && e.Then.Tail != nil && simple(e.Then.Tail) {
+			if eb, ok := e.Else.(*hs.Block); ok && eb.Tail != nil && len(e.Then.Stmts) == 0 && e.Then.Tail != nil && simple(e.Then.Tail) && calm(eb.Stmts) {
 				w.add("branch-mismatch-if", func() hs.Expr { return eb.Tail }, func(n hs.Expr) { eb.Tail = n }, wrongLit(e.T))
 			}
 		}
